@@ -112,8 +112,10 @@ func (p *PgSQLDataDecoderProcessor) OnColumn(ctx context.Context, data []byte) (
 			if err == utils.ErrDecodeOctalString {
 				return ctx, data, nil
 			}
-			logger.WithError(err).Errorln("Can't decode binary data for decryption")
-			return ctx, data, err
+			// a value that starts with "\x" but is not a hex string is not an encoded blob (a text value, or raw
+			// bytes in binary format): leave it as is, same as values that are not valid octal strings
+			logger.WithError(err).Debugln("Value is not a hex string, leave it as is")
+			return ctx, data, nil
 		}
 		// save encoded value on successful decoding to return it as same value if decoded value wasn't need
 		// or cannot be decrypted. Due to in some cases we cannot guess what type is it (if not matched any encryptor_config
